@@ -1,0 +1,14 @@
+//go:build verif
+
+package ps
+
+// VerifPark, when set, is called by the KeyGen goroutine of a party immediately before it blocks on its condition
+// variable in one of the three wait loops ("shares", "commits", "reveals"). The party's lock is held, and is released
+// atomically by the Wait that follows, so a message handed to OnMsg after VerifPark returned is seen by the loop.
+var VerifPark func(party uint16, where string)
+
+func verifPark(party uint16, where string) {
+	if f := VerifPark; f != nil {
+		f(party, where)
+	}
+}
